@@ -88,7 +88,7 @@ Proof.
   intros [R S0 S1 D0 D1 D2 E L] Hs.
   destruct Hs as [s Hsr | i p s H Hp Hsr | i p s H Hp Hsr | i s H Hr | i s H Hr | i s H Hr
                  | i p s H Hp Hd | i p s H Hp Hd | i s H | i s Hab H | i s Hab H
-                 | i s H Hr | i s H Hr | i s H Hr | i s Hl H]; try discriminate.
+                 | i s H Hr | i s H Hr | i s H Hr | i s Hab H | i s Hl H]; try discriminate.
   - (* build_done *)
     destruct s as [ps sr dr rm]; hviews; subst sr; destruct dr;
       constructor; hviews; hwake_rw; intros; lia.
@@ -124,6 +124,8 @@ Proof.
     hfacts H HAbandoned. destruct s as [ps sr dr rm]; hviews; destruct sr, dr; constructor; hviews; intros; lia.
   - (* abandon_fin_err *)
     hfacts H HErr. hviews. exfalso. lia.
+  - (* abandon_again: nested exhaustion re-creates the instruction *)
+    hfacts H HAbandoning. destruct s as [ps sr dr rm]; hviews; destruct sr, dr; constructor; hviews; intros; lia.
 Qed.
 
 Theorem hinv_reach ab n s : hreach ab false n s -> HInv s.
@@ -189,12 +191,17 @@ Proof.
   exfalso. destruct (dready s); [specialize (D0 eq_refl); lia|]. specialize (D1 eq_refl). lia.
 Qed.
 
+(* nested exhaustion (rule h_abandon_again is part of hstep): same theorem, named for the report *)
+Theorem hj_no_deadlock_nested_limit n s :
+  hreach true false n s -> ~ hall_done s -> exists s', hstep true false s s' /\ s' <> s.
+Proof. apply hj_no_deadlock_with_limit. Qed.
+
 Theorem hj_no_deadlock n s :
   hreach false false n s -> ~ hall_done s -> exists s', hstep false false s s' /\ s' <> s.
 Proof. apply hj_no_deadlock_with_limit. Qed.
 
-(* ---------- a lost abandon (two exhausting operators above the join; = the stack before commit
-   131551599 with a single LIMIT): REFUTED ---------- *)
+(* ---------- PREVIOUS stack versions (lose = true): a lost abandon deadlocks the drain barrier.
+   Before 131551599: any LIMIT above the join; before c83fc4e4d: two exhausting operators. ---------- *)
 
 Definition hj_deadlock_state : hst :=
   {| hps := [HLost; HParkedDrain]; sready := true; dready := false; rem_prob := 1 |}.
@@ -203,7 +210,7 @@ Definition hj_deadlock_state : hst :=
    poll_finalize_execute is never called, so remaining_probers stays 1; partition 1 finishes its
    input, finalizes, and waits for drain_ready for ever: no step of any partition changes the
    state, on every schedule. *)
-Theorem hj_drain_deadlock_with_nested_limit_refuted :
+Theorem hj_drain_deadlock_when_abandon_lost_refuted :
   hreach true true 2 hj_deadlock_state /\ ~ hall_done hj_deadlock_state /\
   forall s', hstep true true hj_deadlock_state s' -> s' = hj_deadlock_state.
 Proof.
@@ -229,7 +236,7 @@ Proof.
   - intros s' Hs. unfold hj_deadlock_state in *.
     inversion Hs as [s Hsr | i p s H Hp Hsr | i p s H Hp Hsr | i s H Hr | i s H Hr | i s H Hr
                     | i p s H Hp Hd | i p s H Hp Hd | i s H | i s Hab H | i s Hab H
-                    | i s H Hr | i s H Hr | i s H Hr | i s Hl H]; subst; cbn in *;
+                    | i s H Hr | i s H Hr | i s H Hr | i s Hab H | i s Hl H]; subst; cbn in *;
       try discriminate;
       try (destruct i as [|[|i]]; cbn in *; try discriminate; inversion H; subst; cbn in *; try discriminate; reflexivity);
       try (destruct i as [|[|[|i]]]; cbn in *; discriminate).
@@ -255,4 +262,4 @@ Qed.
 
 Print Assumptions hj_no_deadlock_with_limit.
 Print Assumptions hj_inv_parked_implies_flag_unset.
-Print Assumptions hj_drain_deadlock_with_nested_limit_refuted.
+Print Assumptions hj_drain_deadlock_when_abandon_lost_refuted.
